@@ -61,7 +61,7 @@ var genTypes = map[string]func() interface{}{
 	"Argument":                func() interface{} { return &api.Argument{} },
 }
 
-var c13APIs = []string{"ra", "st", "skip-seek", "skip-stream", "denv", "dreq", "rreq", "senv", "frame"}
+var c13APIs = []string{"ra-declared", "ra", "st", "skip-seek", "skip-stream", "denv", "dreq", "rreq", "senv", "frame"}
 
 func allC13APIs() []string {
 	out := append([]string{}, c13APIs...)
@@ -75,6 +75,32 @@ type discardBody struct{}
 
 func (discardBody) Decode(r stream.Reader) error { _, err := sx.ReadValue(r, wire.TStruct); return err }
 
+var lastDeclared int
+
+// declaredMax is the largest item count any container reachable through eagerly decoded structs declares.
+func declaredMax(v wire.Value, depth int) int {
+	if depth > 16 {
+		return 0
+	}
+	switch v.Type() {
+	case wire.TStruct:
+		m := 0
+		for _, f := range v.GetStruct().Fields {
+			if d := declaredMax(f.Value, depth+1); d > m {
+				m = d
+			}
+		}
+		return m
+	case wire.TList:
+		return v.GetList().Size()
+	case wire.TSet:
+		return v.GetSet().Size()
+	case wire.TMap:
+		return v.GetMap().Size()
+	}
+	return 0
+}
+
 // runAPI executes one decoding API on b; src counts the source calls.
 func runAPI(apiName string, b []byte) (ok bool, calls int, err error) {
 	cr := &countingReader{r: bytes.NewReader(b)}
@@ -84,6 +110,13 @@ func runAPI(apiName string, b []byte) (ok bool, calls int, err error) {
 		ok = err == nil
 	}()
 	switch {
+	case apiName == "ra-declared":
+		// decode without forcing anything: what the lazily held containers claim to hold
+		lastDeclared = 0
+		var v wire.Value
+		if v, err = binary.Default.Decode(cr, wire.TStruct); err == nil {
+			lastDeclared = declaredMax(v, 0)
+		}
 	case apiName == "ra":
 		var v wire.Value
 		if v, err = binary.Default.Decode(cr, wire.TStruct); err == nil {
@@ -146,7 +179,8 @@ func runAPI(apiName string, b []byte) (ok bool, calls int, err error) {
 }
 
 func c13Observe(id string, b []byte, apiName string, inf *inflight) wj.J {
-	o := wj.J{"op": "c13", "id": id, "api": apiName, "n": len(b), "b": wj.Bytes(b), "alloc": 0, "calls": 0, "ok": false, "panic": ""}
+	o := wj.J{"op": "c13", "id": id, "api": apiName, "n": len(b), "b": wj.Bytes(b), "alloc": 0, "calls": 0, "ok": false, "panic": "", "declared": 0}
+	lastDeclared = 0
 	if inf != nil {
 		mb, _ := json.Marshal(o)
 		inf.set(mb)
@@ -159,6 +193,9 @@ func c13Observe(id string, b []byte, apiName string, inf *inflight) wj.J {
 	runtime.ReadMemStats(&m1)
 	o["alloc"] = int64(m1.TotalAlloc - m0.TotalAlloc)
 	o["calls"], o["ok"], o["panic"] = calls, ok, p
+	if apiName == "ra-declared" {
+		o["declared"] = lastDeclared
+	}
 	return o
 }
 
